@@ -48,7 +48,20 @@ func (c01Mon) after(h *H, s *step) {
 func c01Behaviours(c *sim.Case) (*sim.Behaviour, string) {
 	garbage := "<html>502 bad gateway</html>"
 	empty := ""
-	switch sim.Pick(c, "beh", 11) {
+	switch sim.Pick(c, "beh", 17) {
+	case 11:
+		return &sim.Behaviour{Name: "no-expires_in", NoExpiresIn: true}, "no-expires_in"
+	case 12:
+		return &sim.Behaviour{Name: "short-access-token", ExpiresIn: 20}, "expires_in-20"
+	case 13:
+		return &sim.Behaviour{Name: "no-refresh-token", NoRefresh: true, ExpiresIn: 30}, "no-refresh-token"
+	case 14:
+		// validly signed, without exp: a token of which nobody can say that it is unexpired
+		return &sim.Behaviour{Name: "id-token-without-exp", Mutate: resign(func(cl map[string]any) { delete(cl, "exp") })}, "id-token-without-exp"
+	case 15:
+		return &sim.Behaviour{Name: "id-token-exp-0", Mutate: resign(func(cl map[string]any) { cl["exp"] = 0 })}, "id-token-exp-0"
+	case 16:
+		return &sim.Behaviour{Name: "no-access-token", NoAccess: true, NoExpiresIn: true}, "no-access-token"
 	case 0:
 		return &sim.Behaviour{Name: "honest"}, "honest"
 	case 1:
